@@ -79,7 +79,11 @@ impl<T: ORing> OMat<T> {
 
 impl<T: OEuc> OMat<T> {
     /// Textbook Smith normal form (diagonal only): the non-zero invariant factors, each dividing the next, up to units.
-    pub fn snf_diag(&self) -> Vec<T> {
+    pub fn snf_diag(&self) -> Vec<T> { self.try_snf_diag(u64::MAX).expect("unbounded") }
+
+    /// same, but gives up (None) as soon as an entry grows beyond `max_bits` bits: the textbook algorithm
+    /// can suffer coefficient explosion; a budget overrun is an oracle limit, never a verdict
+    pub fn try_snf_diag(&self, max_bits: u64) -> Option<Vec<T>> {
         let mut a = self.clone();
         let (m, n) = (a.m, a.n);
         let mut res = vec![];
@@ -96,7 +100,21 @@ impl<T: OEuc> OMat<T> {
             let Some((pi, pj, _)) = best else { break };
             a.swap_rows(t, pi);
             a.swap_cols(t, pj);
+            let mut rounds = 0u64;
             'outer: loop {
+                rounds += 1;
+                if max_bits != u64::MAX && rounds % 8 == 0 && a.max_bits() > max_bits { return None }
+                // minimal-pivot strategy: always continue with the smallest non-zero entry of the remaining block
+                {
+                    let mut best: Option<(usize, usize, Z)> = None;
+                    for i in t..m { for j in t..n {
+                        let x = a.at(i, j);
+                        if x.is0() { continue }
+                        let s = x.size();
+                        if best.as_ref().map(|b| s < b.2).unwrap_or(true) { best = Some((i, j, s)) }
+                    } }
+                    if let Some((pi, pj, _)) = best { a.swap_rows(t, pi); a.swap_cols(t, pj); }
+                }
                 for i in t + 1..m {
                     if a.at(i, t).is0() { continue }
                     let (q, r) = a.at(i, t).divrem(a.at(t, t));
@@ -122,8 +140,9 @@ impl<T: OEuc> OMat<T> {
             }
             res.push(a.at(t, t).clone());
             t += 1;
+            if max_bits != u64::MAX && a.max_bits() > max_bits { return None }
         }
-        res
+        Some(res)
     }
     pub fn rank(&self) -> usize { self.snf_diag().len() }
     /// gcds of all k x k minors, k = 1..min(m,n) (tiny matrices only)
